@@ -5532,11 +5532,14 @@ def symlink_to_bytes(symlink_target):
      The UDF data corresponding to the symlink.
     """
     symlink_data = bytearray()
-    for comp in symlink_target.split('/'):
+    for index, comp in enumerate(symlink_target.split('/')):
         if comp == '':
-            # If comp is empty, then we know this is the leading slash
-            # and we should make an absolute entry (double slashes and
-            # such are weeded out by the earlier utils.normpath).
+            # If comp is empty at the start, then this is the leading slash
+            # and we should make an absolute entry.  An empty component
+            # elsewhere comes from a doubled or a trailing slash, which does
+            # not change where the path leads; a root entry there would.
+            if index != 0:
+                continue
             symlink_data.extend(b'\x02\x00\x00\x00')
         elif comp == '.':
             symlink_data.extend(b'\x04\x00\x00\x00')
